@@ -169,6 +169,14 @@ func (w *Worker) kill() {
 	}
 }
 
+// KillProcess sends SIGKILL to the running worker without any clean-up; a concurrent Do then
+// observes the death (Result.Died). Used to emulate a node crash at an arbitrary instant.
+func (w *Worker) KillProcess() {
+	if c := w.cmd; c != nil && c.Process != nil {
+		_ = c.Process.Kill()
+	}
+}
+
 // Close stops the worker.
 func (w *Worker) Close() { w.kill() }
 
